@@ -256,9 +256,12 @@ def complex_add(document, cls, tags):
         if a.xml_choice_group is None:
             sequence.append(member)
         else:
-            choice_tags[a.xml_choice_group].append(member)
-
-    sequence.extend(choice_tags.values())
+            choice = choice_tags[a.xml_choice_group]
+            if len(choice) == 0:
+                # the group sits where its first member is declared: that is
+                # where the serializers write whichever member has a value.
+                sequence.append(choice)
+            choice.append(member)
 
     if len(sequence) > 0:
         sequence_parent.append(sequence)
